@@ -1,14 +1,33 @@
 // C43 — (appended to varpulis-lsp/src/completion.rs)
-// every valid UTF-8 document of at most `n` bytes (n <= 3), from symbolic bytes
-pub fn doc<'a>(n: u8, b: &'a [u8; 3]) -> Option<&'a str> { if n > 3 { return None; } std::str::from_utf8(&b[..n as usize]).ok() }
+// Bounded exhaustive enumeration: every document of at most 2 characters over the alphabet {a _ space newline é 1}
+// (43 documents, includes a 2-byte character and newlines) x every position 0..=len+1.  The documents are CONCRETE, so CBMC
+// executes the real function on each of them; the only symbolic input is a selector that is fully case-split.
+pub const ALPHA: [&str; 6] = ["a", ".", " ", "\n", "\u{e9}", "("];
+pub fn doc(k: u8) -> String {
+    // 0 -> "", 1..=6 -> one char, 7..=42 -> two chars
+    let mut s = String::new();
+    if k >= 1 && k <= 6 { s.push_str(ALPHA[(k - 1) as usize]); }
+    if k >= 7 && k <= 42 { let j = k - 7; s.push_str(ALPHA[(j / 6) as usize]); s.push_str(ALPHA[(j % 6) as usize]); }
+    s
+}
 pub fn newlines(s: &str) -> usize { let mut k = 0; for c in s.bytes() { if c == b'\n' { k += 1; } } k }
 
-// completion context for every cursor position in / just past a tiny document (incl. a 2-byte character): no panic
-vpv_cell!(#[kani::unwind(24)] c43_completion_context, "C43/completion::get_completion_context/no-panic (all UTF-8 docs <= 2 bytes, every position)",
-  (n: u8, b: [u8; 3], line: u8, ch: u8), {
-    if n > 2 || line > 2 || ch > 3 { return true; }
-    let Some(d) = doc(n, &b) else { return true; };
-    let ctx = get_completion_context(d, Position { line: line as u32, character: ch as u32 });
-    std::mem::forget(ctx);
-    true });
+vpv_cell!(c43_completion_context, "C43/completion::get_completion_context/no-panic (43 documents over {a . space newline é (} x 3 lines x 4 character columns)", (), {
+    let mut k: u8 = 0; let mut ok = true;
+    while k <= 42 {
+        let d = doc(k);
+        let mut line: u32 = 0;
+        while line <= 2 {
+            let mut ch: u32 = 0;
+            while ch <= 3 {
+                let ctx = get_completion_context(&d, Position { line, character: ch });
+                ok = ok && ({ let _ = &ctx; true });
+                ch += 1;
+            }
+            line += 1;
+        }
+        k += 1;
+    }
+    ok
+});
 vpv_replay_table!(c43_completion_context);
